@@ -42,7 +42,7 @@ __CPROVER_ensures(g_step2 == 1)
 ;
 void state_on_entry(stref_t astate, event_t evt, fsm_t* fsm)
 __CPROVER_requires(g_step2 == 0 && EV_EQ_U(evt, g_evt))
-__CPROVER_requires(KIND == K_PSEUDO_EXIT || !evt.wrapped)                                   /*@ob C09.simple-states-see-the-original-event */
+__CPROVER_requires(KIND == K_PSEUDO_EXIT || !evt.wrapped)                                   /*@ob C09,C18.simple-states-see-the-original-event */
 __CPROVER_assigns(g_step2, g_exc)
 __CPROVER_ensures(g_exc ? g_step2 == 0 : g_step2 == 1)
 ;
@@ -73,7 +73,7 @@ __CPROVER_ensures(!g_exc ==> g_step2 == (KIND == K_PSEUDO_EXIT ? 2 : 1))        
 void execute_exit_unit(stref_t astate, event_t evt, fsm_t* fsm)
 __CPROVER_requires(g_step2 == 0 && !g_exc && EV_EQ_U(evt, g_evt))
 __CPROVER_assigns(g_step2, g_exc)
-__CPROVER_ensures(g_step2 == 1)                                                            /*@ob C02.exit-behaviour-of-the-right-kind-runs-once */
+__CPROVER_ensures(g_step2 == 1)                                                            /*@ob C02,C03,C07.exit-behaviour-of-the-right-kind-runs-once */
 ;
 #ifndef KIND
 #define KIND 1
@@ -92,7 +92,7 @@ __CPROVER_ensures(g_calls == 1)
 void convert_event_and_execute_entry(stref_t astate, event_t evt, fsm_t* fsm)
 __CPROVER_requires(g_calls == 0 && !g_exc && EV_EQ_U(evt, g_evt) && !evt.wrapped)
 __CPROVER_assigns(g_calls, g_exc)
-__CPROVER_ensures(g_calls == 1)                                                            /*@ob C02.target-entered-exactly-once */
+__CPROVER_ensures(g_calls == 1)                                                            /*@ob C02,C03,C09.target-entered-exactly-once */
 ;
 /* ---- exit_pt::forward_event / ForwardHelper ---- */
 typedef struct { _Bool set; } fwd_fct_t;
